@@ -51,7 +51,7 @@ func init() {
 			"distinct (contract, collect outcome shape) pairs, refused-early-Update contracts, reorg depths and (epoch ticks, follower mode) pairs of histories with >= 5 rewarded epochs actually observed",
 		Cases:       c11Cases,
 		Run:         c11Run,
-		MinDistinct: 12,
+		MinDistinct: 60, // a world in which rewards never happen yields < 20
 		Assumptions: []string{
 			"lock / revoke windows (constants.PillarEpochLockTime, PillarEpochRevokeTime, SentinelLockTimeWindow, SentinelRevokeTimeWindow, StakeTimeUnitSec/Min/Max) are shortened through their process globals, like the repository's own tests do, so that leaving is reachable; every reward constant (emission tables, percentages, RewardTimeLimit, UpdateMinNumMomentums, MomentumsPerEpoch) is left untouched",
 			"kind 'hist': no spork is active, the liquidity contract runs its original Update (the epoch emission is minted to the contract itself, observed as mint descendants of the Update receive). kind 'spork': only the BridgeAndLiquidity spork is activated (by the genesis spork address, ids registered in types.ImplementedSporksMap / types.BridgeAndLiquiditySpork like the repository's tests do); the security constants InitialBridgeAdministrator, MinGuardians, MinAdministratorDelay, MinSoftDelay are shortened the same way so that token tuples (ZNN and QSR as stakeable tokens) can be installed; SetAdditionalReward and SetIsHalted are not exercised, so a liquidity epoch is bounded by the emission table alone",
